@@ -147,7 +147,10 @@ func (f *decompressor) step() (err error) {
 				state.input, err = f.rBuf.Peek(f.rBuf.Buffered())
 			}
 			f.peekSize = len(state.input)
-			if err != nil && err != bufio.ErrBufferFull && err != io.EOF {
+			// Peek is asked for at most 9 bytes and a bufio.Reader holds at
+			// least 16, so bufio.ErrBufferFull cannot come from Peek itself:
+			// any error but io.EOF is the source's and is reported as it is.
+			if err != nil && err != io.EOF {
 				return err
 			}
 			f.eof = err == io.EOF
